@@ -192,6 +192,23 @@ class Runner:
             if inst.alive:
                 inst.crash()
                 self.faults_applied += 1
+        elif kind == 'crash_target':
+            # crash an instance (not the emitter) that some Starter is waiting for: mode 0 = the process is still
+            # STOPPED there (request in flight or swallowed), mode 1 = any outstanding start command
+            cands = []
+            for x in w.instances:
+                if not x.alive or x.supvisors is None:
+                    continue
+                for job in list(x.supvisors.starter.current_jobs.values()):
+                    for cmd in list(job.current_jobs):
+                        t = w.by_identifier(cmd.identifier) if cmd.identifier else None
+                        if t is None or not t.alive or t is x:
+                            continue
+                        if int(op[2]) == 1 or t.truth().get(cmd.process.namespec) in (0, 100, 200):
+                            cands.append(t)
+            if cands:
+                cands[int(op[1]) % len(cands)].crash()
+                self.faults_applied += 1
         elif kind == 'boot':
             inst = self.inst(op[1])
             if not inst.alive and inst.restart_at is None:
@@ -452,6 +469,7 @@ class Profile:
     default_behaviours = ('run',)
     behaviours_max = 3
     behaviour_kinds = None         # None = all kinds with the same weight
+    rpc_rare = ()                  # XML-RPC methods drawn 6 times less often by rpc_fuzz
     behaviour_everywhere = 0.0     # probability that a behaviour script applies to the program on every instance
     sequences = (0, 1, 2)
     running_failure = ('CONTINUE', 'RESTART_PROCESS', 'STOP_APPLICATION', 'RESTART_APPLICATION')
@@ -570,6 +588,8 @@ def config_st(draw, profile=Profile):
     default = draw(st.sampled_from(list(profile.default_behaviours)))
     if default != 'run':
         out['default_behaviour'] = default
+    if profile.rpc_rare:
+        out['rpc_rare'] = list(profile.rpc_rare)
     return out
 
 
@@ -637,6 +657,8 @@ def op_st(draw, config, kinds, specs):
         return [kind, i]
     if kind == 'restart':
         return [kind, i, draw(st.sampled_from([0, 0, 1, 3, 8, 20]))]
+    if kind == 'crash_target':
+        return [kind, draw(st.integers(0, 7)), draw(st.sampled_from([0, 0, 1]))]
     if kind in ('cut', 'heal', 'mute'):
         j = draw(st.integers(0, n - 1))
         return [kind, i, j]
@@ -800,6 +822,10 @@ def fuzz_rpc_st(draw, config, i, specs):
     method = draw(st.sampled_from(sorted(RPC_SIGNATURES)))
     if method in ('change_log_level',):
         method = 'get_api_version'
+    rare = config.get('rpc_rare')
+    if rare and method in rare and draw(st.integers(0, 5)) != 0:
+        # methods that end the episode early (restart, shutdown) are drawn less often
+        method = draw(st.sampled_from(sorted(m for m in RPC_SIGNATURES if m not in rare and m != 'change_log_level')))
     params = [draw(param_st(config, kind, specs)) for kind in RPC_SIGNATURES[method]]
     return ['rpc_fuzz', i, method, params]
 
